@@ -77,19 +77,19 @@ class SigmaValidator:
         except KeyError as e:
             raise SigmaConfigurationError(f"Unknown validator '{ e.args[0] }'")
 
-        # Build exclusion dict
+        # Build exclusion dict. Different spellings of the same rule identifier end in the same key,
+        # their exclusions are united.
+        exclusions: DefaultDict[UUID | None, set[Type[SigmaRuleValidator]]] = defaultdict(set)
         try:
-            exclusions = {
-                (UUID(rule_id) if rule_id is not None else None): {
+            for rule_id, rule_exclusions in d.get("exclusions", dict()).items():
+                exclusions[UUID(rule_id) if rule_id is not None else None].update(
                     validators[
                         exclusion_name
-                    ]  # main purpose of the generators: resolve identifiers into classes
+                    ]  # main purpose of the generator: resolve identifiers into classes
                     for exclusion_name in (
                         rule_exclusions if isinstance(rule_exclusions, list) else [rule_exclusions]
                     )
-                }
-                for rule_id, rule_exclusions in d.get("exclusions", dict()).items()
-            }
+                )
         except KeyError as e:
             raise SigmaConfigurationError(f"Unknown validator '{ e.args[0] }'")
 
